@@ -227,7 +227,11 @@ class ListField(Field):
             and value.cfg is cfg
             and value.list_field is self
         ):
-            # already this configuration's validated list for this field: its items know it
+            # already this configuration's validated list for this field; item configurations
+            # taken over from an earlier list of the field (a copy, a concatenation) belong to it
+            for item in value:
+                if isinstance(item, Config):
+                    item._container = value
             return value
 
         proxy = ListProxy(cfg, self, value)
